@@ -176,7 +176,8 @@ def check_pairs(cfg, crate, rep, tables):
             I = Interp(crate)
             v = I.run_fn(k)["value"]
             lits = [1 for sv, node, f, c in I.structs if (sv.adt or "") == KP and f == k]
-            rep.ob("C11.doc", "%s|%s|delegates" % (cfg, k), not lits and (".try_into" in v.r() or ".try_from" in v.r()), "byte-slice / Vec / PKCS#8 entry points only convert and delegate", found=v.r()[:140])
+            deleg = ".try_into" in v.r() or ".try_from" in v.r() or any(c_.startswith("<key_pair::KeyPair as std::convert::TryFrom") for c_ in calls_of(v))
+            rep.ob("C11.doc", "%s|%s|delegates" % (cfg, k), not lits and deleg, "byte-slice / Vec / PKCS#8 entry points only convert and delegate", found=v.r()[:140])
 
 
 def check_generate(cfg, crate, rep):
@@ -186,7 +187,7 @@ def check_generate(cfg, crate, rep):
     rep.fn(fn)
     I = Interp(crate, inline_always={KP + "::generate_rsa_inner"})
     I.run_fn(fn)
-    lits = [(sv, node, c) for sv, node, f, c in I.structs if (sv.adt or "") == KP and f in (fn, KP + "::generate_rsa_inner")]
+    lits = [(sv, node, c) for sv, node, f, c in I.structs if (sv.adt or "") == KP]
     rep.floor("C11.doc", "generated KeyPair literals (%s)" % cfg, len(lits), 2 if cfg != "K2" else 3)
     for sv, node, c in lits:
         kind = kind_of(sv.fields.get("kind"))
@@ -242,10 +243,24 @@ def check_spki(cfg, crate, rep):
         rep.ob("C11.spki", key + "|iterates-all", "sign_algo::SignatureAlgorithm::iter" in calls, "the algorithm is chosen by scanning the full algorithm list")
         trailing = [c for c, v, n, f in I.fails if f == fn and any(a[0] == "empty" and a[1].endswith(".0") for a in F.atoms(c))]
         rep.ob("C11.spki", key + "|trailing-bytes", len(trailing) == 1, "trailing bytes after the SubjectPublicKeyInfo are rejected", found=[F.show(c) for c, v, n, f in I.fails if f == fn])
-        b = crate.body(fn)
-        eqs = [n for n in common.hir_walk(b["hir"]) if n["k"] == "Binary" and n["op"] == "==" and "AlgorithmIdentifier" in n["l"].get("ty", "")]
-        ok = len(eqs) == 1 and eqs[0]["r"]["k"] == "Field" and eqs[0]["r"]["name"] == "algorithm"
-        rep.ob("C11.spki", key + "|complete-identifier", ok, "a complete AlgorithmIdentifier (OID and parameters) is compared with the key's", found=len(eqs))
+        # semantic form: some equality test compares the *whole* AlgorithmIdentifier of the parsed key (the value selected
+        # as `.algorithm` directly from the parsed SubjectPublicKeyInfo, nothing deeper) with an AlgorithmIdentifier decoded
+        # from what the candidate algorithm's own writer produced
+        ok = False
+        seen = []
+        for a, vals in I.atom_vals.items():
+            if a[0] != "eq" or len(vals) != 2:
+                continue
+            for x, y in ((vals[0], vals[1]), (vals[1], vals[0])):
+                rx = core(x).r()
+                if "spki_der" in rx and rx.endswith(".algorithm") and not rx.endswith(".algorithm.algorithm"):
+                    ry = roots(y)
+                    seen.append(rx[-60:])
+                    if any(r.startswith("emit:") and r.endswith("write_oids_sign_alg") for r in ry) and any(r.startswith("call:") and r.endswith("from_der") for r in ry):
+                        ok = True
+                elif "spki_der" in rx and ".algorithm" in rx:
+                    seen.append("PARTIAL " + rx[-70:])
+        rep.ob("C11.spki", key + "|complete-identifier", ok, "a complete AlgorithmIdentifier (OID and parameters) is compared with the key's", found=seen)
         wr = [c for c in calls if c.endswith("write_oids_sign_alg")]
         rep.ob("C11.spki", key + "|candidate-from-writer", len(wr) >= 1, "candidates are produced by the writer's own identifier function (reader and writer cannot disagree)")
         lits = [(sv, node) for sv, node, f, c in I.structs if (sv.adt or "").endswith("SubjectPublicKeyInfo") and f == fn]
